@@ -60,6 +60,14 @@ func LogConfigFromFile(filename string) ([]*configpb.LogConfig, error) {
 		if binErr := proto.Unmarshal(cfgBytes, &cfg); binErr != nil {
 			return nil, fmt.Errorf("failed to parse LogConfigSet from %q as text protobuf (%v) or binary protobuf (%v)", filename, txtErr, binErr)
 		}
+	} else if len(cfg.Config) == 0 {
+		// A binary file can pass as an empty text message (e.g. one starting
+		// with "\n#" is a blank line and a comment), so give the binary form a
+		// chance before declaring the config empty.
+		var binCfg configpb.LogConfigSet
+		if binErr := proto.Unmarshal(cfgBytes, &binCfg); binErr == nil && len(binCfg.Config) > 0 {
+			return binCfg.Config, nil
+		}
 	}
 
 	if len(cfg.Config) == 0 {
